@@ -16,9 +16,12 @@ int to a float take the conversion as a parameter `conv`:
   Spec  = the function at `conv := exactF`  (comparison of the exact numeric values).
 
 Maps are modelled in canonical form (keys strictly sorted, parallel value list) and sets in
-canonical form (items in the order of `Set.SortedItems`); the Go loops
-`for k, v := range m.items { other.items[k] … }` over two maps of equal size are modelled
-as the pointwise comparison of these canonical forms (tied by correspondence, not proof).
+canonical form (items in the order of `Set.SortedItems`).  `equalsG` compares these canonical
+forms pointwise; `equalsWG` follows the Go loops
+`for k, v := range m.items { otherValue, found := other.items[k] … }` (size test, then every
+left entry looked up on the right) on the same values read as association lists.  That the
+two agree on all well-formed values (`wf`) is proved (`equalsWG_eq_equalsG`, LemmasW.lean);
+the oracle answers both and the harness compares each with the real `Equals`.
 Core Lean only.
 -/
 namespace Risor.C15
@@ -251,6 +254,91 @@ def compare : Val → Val → Option Int := compareG toF
 def xequals : Val → Val → Bool := equalsG exactF
 def xcompare : Val → Val → Option Int := compareG exactF
 
+/-! ### `Equals` as it is written: `Map.Equals` / `Set.Equals` range over the LEFT items and
+look each key up in the RIGHT items (`other.items[k]`; absent → not equal)
+
+`equalsG` above compares the canonical forms pointwise.  `equalsW` below follows the Go
+loops: `len(m.items) != len(other.items) → false`, then for every entry `(k, v)` of the left
+map the value `other.items[k]` must exist and `v.Equals(otherValue)` must hold (sets: the
+same with hash keys).  A map is an association list (parallel key/value lists, distinct
+keys), a set an association list from hash keys to items.  `equalsW_eq_equalsG` (Lemmas)
+PROVES that the two definitions agree on all well-formed values (`wf`), so every law proved
+for `equals` is a law of the loops; `map_eq_iff_entries` (Props) characterises the loop's
+result entry by entry. -/
+
+/-- `items[k]` with its `found` flag, on parallel key/value lists -/
+def lookupKV {κ : Type} [DecidableEq κ] (k : κ) : List κ → List Val → Option Val
+  | k' :: ks, v :: vs => if k = k' then some v else lookupKV k ks vs
+  | _, _ => none
+
+/-- the body of the `for k, v := range left { … right[k] … }` loops for an arbitrary value
+    equality `eq` (used by the lemmas; `equalsWM`/`equalsWS` are this loop at `equalsW`) -/
+def loopAll {κ : Type} [DecidableEq κ] (eq : Val → Val → Bool) :
+    List κ → List Val → List κ → List Val → Bool
+  | k :: ks, v :: vs, ks', vs' =>
+    (match lookupKV k ks' vs' with
+     | none => false
+     | some v' => eq v v') && loopAll eq ks vs ks' vs'
+  | _, _, _, _ => true
+
+mutual
+/-- `a.Equals(b)`, following the code of `List.Equals`, `Map.Equals`, `Set.Equals` -/
+def equalsWG (conv : Int → F) : Val → Val → Bool
+  | .list xs, b =>
+    (match b with
+     | .list ys => xs.length == ys.length && equalsWL conv xs ys
+     | _ => false)
+  | .map ks vs, b =>
+    (match b with
+     | .map ks' vs' => ks.length == ks'.length && equalsWM conv ks vs ks' vs'
+     | _ => false)
+  | .set xs, b =>
+    (match b with
+     | .set ys => xs.length == ys.length && equalsWS conv xs ys
+     | _ => false)
+  | .nil, b => scalarEquals conv .nil b
+  | .bool x, b => scalarEquals conv (.bool x) b
+  | .int x, b => scalarEquals conv (.int x) b
+  | .float x, b => scalarEquals conv (.float x) b
+  | .byte x, b => scalarEquals conv (.byte x) b
+  | .str x, b => scalarEquals conv (.str x) b
+  | .err m r, b => scalarEquals conv (.err m r) b
+/-- `for i, v := range ls.items { Equals(v, other.items[i]) }` -/
+def equalsWL (conv : Int → F) : List Val → List Val → Bool
+  | [], [] => true
+  | x :: xs, y :: ys => equalsWG conv x y && equalsWL conv xs ys
+  | _, _ => false
+/-- `for k, v := range m.items { otherValue, found := other.items[k]; … v.Equals(otherValue) }` -/
+def equalsWM (conv : Int → F) : List (List Nat) → List Val → List (List Nat) → List Val → Bool
+  | k :: ks, v :: vs, ks', vs' =>
+    (match lookupKV k ks' vs' with
+     | none => false
+     | some v' => equalsWG conv v v') && equalsWM conv ks vs ks' vs'
+  | _, _, _, _ => true
+/-- `for k, v := range s.items { otherV, ok := other.items[k]; … v.Equals(otherV) }`, `k` the hash key -/
+def equalsWS (conv : Int → F) : List Val → List Val → Bool
+  | x :: xs, ys =>
+    (match lookupKV (hashKey x) (hashKeys ys) ys with
+     | none => false
+     | some y => equalsWG conv x y) && equalsWS conv xs ys
+  | [], _ => true
+end
+
+/-- Impl, as written -/
+def equalsW : Val → Val → Bool := equalsWG toF
+/-- Spec, as written: the same loops over exact-value equality -/
+def xequalsW : Val → Val → Bool := equalsWG exactF
+
+/-! #### well-formed values: what the representation of a real `*object.Map` / `*object.Set` satisfies -/
+
+/-- strict order of map keys in the canonical form (Go string `<`) -/
+def keyLt (a b : List Nat) : Bool := cmpBytes a b == -1
+
+/-- `lt a b` for every later `b`: strictly sorted (hence distinct) -/
+def sortedBy {α : Type} (lt : α → α → Bool) : List α → Bool
+  | [] => true
+  | a :: rest => rest.all (fun b => lt a b) && sortedBy lt rest
+
 /-- `object.Compare(op.NotEqual, a, b)` = `Not(a.Equals(b))` -/
 def notEquals (a b : Val) : Bool := !(equals a b)
 
@@ -409,6 +497,25 @@ def keyOf (v : Val) : HashKey :=
 /-- `NewSet(items)`: `none` = "unhashable" type error -/
 def mkSet (xs : List Val) : Option (List Val) :=
   if allHashable xs then some (buildSet keyOf xs) else none
+
+/-- the `SortedItems` order on the hash keys of set items (an unhashable item has no place) -/
+def okLt : Option HashKey → Option HashKey → Bool
+  | some a, some b => hkLess a b
+  | _, _ => false
+
+mutual
+/-- well-formed: every map has as many values as keys and strictly sorted (so distinct) keys,
+    every set holds hashable items in strict `SortedItems` order (so with distinct hash
+    keys) — at every nesting level.  This is what `c15Enc` produces from a real object. -/
+def wf : Val → Bool
+  | .list xs => wfL xs
+  | .map ks vs => ks.length == vs.length && sortedBy keyLt ks && wfL vs
+  | .set xs => allHashable xs && sortedBy okLt (hashKeys xs) && wfL xs
+  | _ => true
+def wfL : List Val → Bool
+  | [] => true
+  | x :: xs => wf x && wfL xs
+end
 
 /-! ## Spec side -/
 
